@@ -7,3 +7,15 @@ package strutil
 // C17 sweep: subsequence matching never panics, also for strings that are not valid UTF-8.
 //@ func HasSubseq
 //@   props C17
+
+// C28: line boundaries.
+//@ func FindFirstEOL
+//@   props C28
+//@   pure
+//@   ensures 0 <= result && result <= len(s) && nl(s, 0, result) == 0
+//@   ensures result == len(s) || s[result] == '\n'
+//@ func FindLastSOL
+//@   props C28
+//@   pure
+//@   ensures 0 <= result && result <= len(s) && nl(s, result, len(s)) == 0
+//@   ensures result == 0 || s[result-1] == '\n'
